@@ -6,6 +6,7 @@ import (
 	"encoding/json"
 	"fmt"
 	"math"
+	"math/big"
 	"math/rand"
 
 	"github.com/amzn/ion-go/ion"
@@ -170,11 +171,23 @@ func (n *navigator) readOwn(v *model.Value) bool {
 		}
 		got.B = *b
 	case model.Int:
+		// what one accessor answers must not depend on which accessors were called before it
+		sz1, e1 := n.r.IntSize()
 		bi, err := n.r.BigIntValue()
 		if err != nil || bi == nil {
 			return n.bad("BigIntValue: %v %v", bi, err)
 		}
-		got.I = bi
+		got.I = new(big.Int).Set(bi)
+		sz2, e2 := n.r.IntSize()
+		n.r.Int64Value()
+		n.r.IntValue()
+		sz3, e3 := n.r.IntSize()
+		if sz1 != sz2 || sz1 != sz3 || (e1 == nil) != (e2 == nil) || (e1 == nil) != (e3 == nil) {
+			return n.bad("IntSize of %v: %v (err %v) at first, %v (err %v) after BigIntValue, %v (err %v) after Int64Value and IntValue", bi, sz1, e1, sz2, e2, sz3, e3)
+		}
+		if bi2, err := n.r.BigIntValue(); err != nil || bi2 == nil || bi2.Cmp(got.I) != 0 {
+			return n.bad("BigIntValue called again: %v %v, first %v", bi2, err, got.I)
+		}
 	case model.Float:
 		f, err := n.r.FloatValue()
 		if err != nil || f == nil {
